@@ -74,7 +74,7 @@ def parseObs (kv : KV) : Obs :=
     else .mock { owner := kv.nat "fd.owner", price := optNat (kv.str "fd.price") }
   let w : World :=
     { env := env, engine := e, vamms := vamms,
-      ifund := { owner := kv.nat "if.owner", engine := kv.nat "if.engine", vamms := natList (kv.str "if.vamms") },
+      ifund := { owner := kv.nat "if.owner", engine := kv.nat "if.engine", vamms := natList (kv.str "if.vamms"), stored := kv.bool "if.stored" },
       feePool := { owner := kv.nat "fp.owner", tokens := natList (kv.str "fp.tokens") },
       feed := feed,
       ledger := { bal := parsePairs (kv.str "bal"), allow := parsePairs (kv.str "allow") } }
